@@ -210,7 +210,6 @@ def stepRow (e : Expr) (flags : Option TextFlags) (isBool : Bool) (cells : List 
   let sv := sqlValue envF row e
   let parses := handParses e
   let nonnull := allNonNull envF row e
-  let known := notKnown envF row e
   -- h
   let hM := handEval envF row e
   let hLine := if parses then ["h", resCell hM] else implLine impl "h"
@@ -251,7 +250,7 @@ def stepRow (e : Expr) (flags : Option TextFlags) (isBool : Bool) (cells : List 
       -- a deviation is explained by a recorded class only if the model reproduces it
       if sameCell (cellOf v) c then [] else
         [("select-value", if !parses then "not-operator"
-          else if !known && rLine == rImpl then "not-over-unknown"
+          else if !shapeOK e .e && rLine == rImpl then "condition-as-operand"
           else if bridgeFirst && !nonnull && rLine == rImpl then "null-operand-exprlang" else "none")]
     | .ok _, _ => [("select-value", "none")]
     | .bad _, _ => []
@@ -264,7 +263,6 @@ def stepRow (e : Expr) (flags : Option TextFlags) (isBool : Bool) (cells : List 
   let tags :=
     [if svOk then (if nonnull then "row-nonnull" else "row-null-touched") else "row-outside-fragment"] ++
     (if parses then [] else ["echo-not-operator"]) ++
-    (if known then [] else ["row-not-over-unknown"]) ++
     (if xModelled then ["x-table"] else ["x-echo"]) ++
     [routeTag flags]
   { obs := [hLine, xLine, kLine, rLine, wLine], fails := rFail ++ wFail ++ kFail, tags := tags }
